@@ -26,11 +26,18 @@ def listEffect (k : LKind) (r : LRules) : LRules :=
   | .string => { filter := false, sort := false, search := r.search }
   | .other => { filter := false, sort := false, search := false }
 
+/-- the enum branch of the callback: every default filter has to name an option of the enum
+(`enumSchema.OptionByName(val)`), else the whole client API is refused -/
+def defaultFiltersOk (options defaults : List J5V.Compile.Str) : Bool :=
+  defaults.all (fun d => options.contains d)
+
 def LRules.toTag (r : LRules) : Nat :=
   (if r.filter then 1 else 0) + (if r.sort then 2 else 0) + (if r.search then 4 else 0)
 
 def tagFilter (t : Nat) : Bool := t % 2 == 1
 def tagSort (t : Nat) : Bool := t / 2 % 2 == 1
 def tagSearch (t : Nat) : Bool := t / 4 % 2 == 1
+/-- bit 8: the property is a filterable enum whose default filters fail `defaultFiltersOk` -/
+def tagBadDefault (t : Nat) : Bool := t / 8 % 2 == 1
 
 end J5V.Pipe
